@@ -3,8 +3,8 @@ from vlib.spec import Cond, I, B
 from harness import core, fam, lemmas, ctx
 
 P = {"c01"}
-T_QUICK = [0, 1, 2, 3, 4, 5, 6, 7, 8, 9, 10, 11, 12, 13, 15, 16, 17, 18]
-T_ALL = list(range(20))
+T_QUICK = [0, 1, 2, 3, 4, 5, 6, 7, 8, 9, 10, 11, 12, 13, 15, 16, 17, 18, 20, 21]
+T_ALL = list(range(22))
 
 
 def conds(tier):
